@@ -488,10 +488,19 @@ func (d *DefaultServerDispatcher) CreateClient(clientID string) {
 func (d *DefaultServerDispatcher) DeleteClient(clientID string) {
 	d.queueMap.Remove(clientID)
 	if d.IsRunning() {
-		d.mutex.RLock()
-		d.requestChannel <- clientID
-		d.mutex.RUnlock()
+		d.notifyMessagePump(clientID)
 	}
+}
+
+// notifyMessagePump tells the message pump to look at the queue of a client.
+// The read lock only protects the channel variable: it must not be held while waiting for room in the channel,
+// or - the pending request state shares this lock - the first write-lock request (a response being processed, the
+// pump marking a request as pending) blocks the pump for good and nobody drains the channel any more.
+func (d *DefaultServerDispatcher) notifyMessagePump(clientID string) {
+	d.mutex.RLock()
+	requestChannel := d.requestChannel
+	d.mutex.RUnlock()
+	requestChannel <- clientID
 }
 
 func (d *DefaultServerDispatcher) SetNetworkServer(server ws.Server) {
@@ -517,9 +526,7 @@ func (d *DefaultServerDispatcher) SendRequest(clientID string, req RequestBundle
 	if err := q.Push(req); err != nil {
 		return err
 	}
-	d.mutex.RLock()
-	d.requestChannel <- clientID
-	d.mutex.RUnlock()
+	d.notifyMessagePump(clientID)
 	return nil
 }
 
